@@ -527,6 +527,47 @@ example :
     run (instOf s 0 (some 10) 2 (fun _ => false)) (fun _ => [])
       [⟨3, some 18, some 8, 1, none⟩, ⟨3, some 12, some 2, 2, none⟩] = [[(⟨12, 2⟩, ⟨3, 12, some 2, 2⟩)]] := by decide
 
+/-! ### the one-by-one types as a specification: the handler sees exactly the acceptable envelopes -/
+
+/-- the judgement on one envelope: the element the handler would get, if any -/
+def accept (nodes : List Node) (w : Wire) : Option (Node × Msg) :=
+  match msgOf w with
+  | none => none
+  | some m => (verify nodes m).map fun n => (n, m)
+
+/-- **sound, complete, in order, once — in one statement**: for message types registered one by one, what the
+handlers and channels of an instance receive over any sequence of envelopes is exactly the sub-sequence of
+envelopes whose claimed sender is a node of the tree hosted by the envelope's peer, each handed over alone, in
+arrival order, independently of what is queued for other types. -/
+theorem c02_plain_run_is_filter (i : Inst) (q : Queues) (ws : List Wire) (hplain : ∀ w ∈ ws, i.agg w.ty = false) :
+    run i q ws = (ws.filterMap (accept i.nodes)).map fun x => [x] := by
+  induction ws generalizing q with
+  | nil => simp [run]
+  | cons w ws ih =>
+    have hw := hplain w (by simp)
+    have ih' := fun q' => ih q' (fun w' hw' => hplain w' (by simp [hw']))
+    simp only [run, List.filterMap_cons]
+    cases hs : w.sender with
+    | none =>
+      have : accept i.nodes w = none := by simp [accept, msgOf, hs]
+      rw [this, c02_missing_sender_refused i q w hs]
+      simp [ih']
+    | some s =>
+      have hm : msgOf w = some { ty := w.ty, sender := s, peer := w.peer, val := w.val } := by simp [msgOf, hs]
+      cases hv : verify i.nodes { ty := w.ty, sender := s, peer := w.peer, val := w.val } with
+      | none =>
+        have : accept i.nodes w = none := by simp [accept, hm, hv]
+        rw [this]
+        have hr : receive i q w = (q, []) := by
+          simp [receive, hs, aggregate_plain i q { ty := w.ty, sender := s, peer := w.peer, val := w.val } hw,
+            dispatch, hw, deliverPlain, hv]
+        rw [hr]; simp [ih']
+      | some n =>
+        have : accept i.nodes w = some (n, { ty := w.ty, sender := s, peer := w.peer, val := w.val }) := by
+          simp [accept, hm, hv]
+        rw [this, c02_honest_plain_delivered i q w s n hs hw hv]
+        simp [ih']
+
 /-! ### this model's `aggregate` is property C04's
 
 C02 carries its own copy of `TreeNodeInstance.aggregate` (over messages that still name their claimed sender and
@@ -574,6 +615,59 @@ theorem c02_child_with_parents_id_bypasses :
     run { nodes := [⟨10, 0⟩, ⟨11, 1⟩, ⟨12, 2⟩, ⟨10, 0⟩], parent := some 10, nChildren := 2, agg := fun t => t == 1 }
       (fun _ => []) [⟨1, some 12, some 2, 7, none⟩, ⟨1, some 10, some 0, 8, none⟩]
     = [[(⟨10, 0⟩, ⟨1, 10, some 0, 8⟩)]] := by decide
+
+/-- what `aggregate` releases over a list of accepted-for-aggregation messages, with the type each batch was
+released for; the final queues -/
+def released (i : Inst) (q : Queues) : List Msg → Queues × List (Nat × List Msg)
+  | [] => (q, [])
+  | m :: l =>
+    let r := aggregate i q m
+    let r' := released i r.1 l
+    (r'.1, (r.2.toList.map fun b => (m.ty, b)) ++ r'.2)
+
+/-- **this model = C04's batches + the sender check**: a run is `aggregate` over the envelopes that carry a sender
+token, followed by `dispatch` (the verification) of every released batch … -/
+theorem c02_run_is_released_then_verified (i : Inst) (q : Queues) (ws : List Wire) :
+    run i q ws = ((released i q (ws.filterMap msgOf)).2).flatMap (fun p => dispatch i p.1 p.2) ∧
+    finalQ i q ws = (released i q (ws.filterMap msgOf)).1 := by
+  induction ws generalizing q with
+  | nil => simp [run, finalQ, released]
+  | cons w ws ih =>
+    cases hs : w.sender with
+    | none =>
+      have hm : msgOf w = none := by simp [msgOf, hs]
+      have hr := c02_missing_sender_refused i q w hs
+      simp only [run, finalQ, List.filterMap_cons, hm, hr]
+      simpa using ih q
+    | some s =>
+      have hm : msgOf w = some { ty := w.ty, sender := s, peer := w.peer, val := w.val } := by simp [msgOf, hs]
+      have hr1 : (receive i q w).1 = (aggregate i q { ty := w.ty, sender := s, peer := w.peer, val := w.val }).1 := by
+        simp [receive, hs]
+      have hr2 : (receive i q w).2 =
+          ((aggregate i q { ty := w.ty, sender := s, peer := w.peer, val := w.val }).2.toList.map
+            fun b => ((w.ty, b) : Nat × List Msg)).flatMap (fun p => dispatch i p.1 p.2) := by
+        simp only [receive, hs]
+        cases (aggregate i q { ty := w.ty, sender := s, peer := w.peer, val := w.val }).2 <;> simp
+      have := ih (receive i q w).1
+      simp only [run, finalQ, List.filterMap_cons, hm, released, List.flatMap_append]
+      rw [this.1, this.2, hr1, hr2]
+      exact ⟨rfl, rfl⟩
+
+/-- … and the released batches are, message for message, the batches of C04's model over the same arrivals
+(with "claimed sender = my parent" read as "from the parent"): every theorem of C04 about which batches exist —
+one per round, complete, never mixed — is a theorem about the batches this model verifies. -/
+theorem c02_released_refines_c04 (i : Inst) (q : Queues) (l : List Msg) :
+    C04.run (toC04Cfg i) (fun t => (q t).map (toC04Msg i)) (l.map (toC04Msg i)) =
+      ((fun t => ((released i q l).1 t).map (toC04Msg i)),
+       (released i q l).2.map fun p => p.2.map (toC04Msg i)) := by
+  induction l generalizing q with
+  | nil => simp [C04.run, released]
+  | cons m l ih =>
+    simp only [List.map_cons, C04.run, released]
+    rw [c02_aggregate_refines_c04 i q m]
+    simp only
+    rw [ih (aggregate i q m).1]
+    cases (aggregate i q m).2 <;> simp
 
 /-! ### the code regions the model stands for
 Regenerated from /repo's source on every run (`harness/cmd/astfacts` → `OnetVerif/Shapes.lean`): the
